@@ -13,6 +13,7 @@ KINDS = c09.KINDS
 
 class C12(Prop):
     id = 'C12'
+    struct_inputs = False          # get_value() of the input variables is part of the property
     rule_added = 'Cases as generated for C09, including the sibling-unit named assertions and bound constants.'
     rule = ('modular specifications with 1..4 named sub-specifications + the named top assertion (generated as for '
             'C09) on the 5 monitor configurations; after evaluate() / after every update(), get_value(v) of every input '
